@@ -1,4 +1,218 @@
+//! vx-c19 — property C19: tokio-compatible primitives keep tokio's documented contracts.
+//!
+//! `check C19 quick|thorough|--replay <file>`; hidden sub-commands `worker`, `bench`, `describe`.
+mod driver;
+mod fam_lock;
+mod fam_mpsc;
+mod fam_notify;
+mod fam_oneshot;
+mod fam_task;
+mod fam_watch;
+mod stackcache;
+
+use driver::XRunner;
+use serde_json::json;
+use vx::common::{finish, CheckCtx, CheckResult, Tier};
+use vx::drive::{self, FamilyDyn, Mode, VKind};
+
+fn registry() -> Vec<Box<dyn FamilyDyn>> {
+    vec![
+        Box::new(XRunner::new(fam_mpsc::program_set::<true>)),
+        Box::new(XRunner::new(fam_mpsc::program_set::<false>)),
+        Box::new(XRunner::new(fam_oneshot::program_set)),
+        Box::new(XRunner::new(fam_watch::program_set)),
+        Box::new(XRunner::new(fam_notify::program_set)),
+        Box::new(XRunner::new(fam_lock::program_set)),
+        Box::new(XRunner::new(fam_task::program_set)),
+    ]
+}
+
+/// (family, share of the wall-clock budget)
+const FAMILIES: [(&str, f64); 7] = [("toneshot", 0.3), ("tmpsc_thr", 0.7), ("tnotify", 1.0), ("ttask", 1.5), ("twatch", 3.0), ("tmpsc", 3.5), ("tlock", 4.0)];
+
+fn family(name: &str) -> Box<dyn FamilyDyn> {
+    registry().into_iter().find(|f| f.name() == name).unwrap_or_else(|| {
+        eprintln!("MACHINERY-ERROR: unknown family {}", name);
+        std::process::exit(2)
+    })
+}
+
+fn c19(ctx: &CheckCtx) -> CheckResult {
+    let mut res = CheckResult::new("model_checking");
+    let set = if ctx.tier.is_thorough() { "thorough" } else { "quick" };
+    let mode = Mode {
+        complete: false,
+        ..Mode::default()
+    };
+    // every family gets its share of the wall-clock budget (unused time rolls over to the next)
+    let total = if ctx.tier.is_thorough() { 1380.0 } else { 40.0 };
+    let t0 = std::time::Instant::now();
+    let mut weight_left: f64 = FAMILIES.iter().map(|f| f.1).sum();
+    for (f, w) in FAMILIES.iter() {
+        let left = (total - t0.elapsed().as_secs_f64()).max(1.0);
+        let share = left * w / weight_left;
+        weight_left -= w;
+        vx::checks::run_e2_with(ctx, &mut res, &[(*f, set, mode.clone())], &[VKind::Sound, VKind::Enabled, VKind::Ending, VKind::Abort], share, &family);
+    }
+    res.cov("rule", format!("{}; C19: the explorer additionally branches over a per-program data menu at every first `next_u64` of a burst (Notify's random waiter choice), re-draws of a rejection-sampling loop are answered with 0", vx::checks::e2_rule()));
+    res.assumptions.push("small-scope: programs up to the stated size only".into());
+    res.assumptions.push("reference models written from tokio's documentation of sync::{mpsc, oneshot, watch, Notify, Mutex, RwLock, Semaphore}, task::{spawn, JoinHandle, JoinSet} (DESIGN.md Appendix A, tokio paragraph); entry points that are `unimplemented!()` in the wrapper are excluded".into());
+    res.assumptions.push("blocking_* operations are only used by plain threads and by tasks that never await (the shape of a spawn_blocking closure), as tokio requires".into());
+    res
+}
+
+fn replay_file(id: &str, path: &str) -> ! {
+    let s = std::fs::read_to_string(path).unwrap_or_else(|e| {
+        eprintln!("cannot read {}: {}", path, e);
+        std::process::exit(2)
+    });
+    let doc: serde_json::Value = serde_json::from_str(&s).expect("replay json");
+    let r = &doc["replay"];
+    println!("property {} key {}", id, doc["key"]);
+    println!("reported: {}", doc["what"]);
+    match r["engine"].as_str() {
+        Some("e2") => {
+            let fam = family(r["family"].as_str().unwrap());
+            let set = r["set"].as_str().unwrap();
+            let idx = r["idx"].as_u64().unwrap() as usize;
+            let alts: Vec<String> = r["alts"].as_array().unwrap().iter().map(|v| v.as_str().unwrap().to_string()).collect();
+            if fam.describe(set, idx) != r["program"].as_str().unwrap() {
+                println!("note: program list changed since the replay file was written; using index {}", idx);
+            }
+            if alts.is_empty() {
+                println!("(finding concerns the whole schedule tree of the program; re-checking the program)");
+                let rep = fam.check_idx(set, idx, &Mode { complete: false, ..Mode::default() });
+                for v in rep.violations {
+                    println!("  {:?}: {}", v.kind, v.what);
+                }
+            } else {
+                vx::common::silence_panics();
+                println!("{}", fam.replay(set, idx, &drive::strings_to_alts(&alts)));
+            }
+        }
+        other => {
+            println!("no replayer for engine {:?}", other);
+            std::process::exit(2);
+        }
+    }
+    std::process::exit(0)
+}
+
+fn run_check(id: &str, tier: Tier) -> ! {
+    let ctx = CheckCtx::new(id, tier);
+    let res = match id {
+        "C19" => c19(&ctx),
+        _ => {
+            eprintln!("MACHINERY-ERROR: no check registered for {}", id);
+            std::process::exit(2)
+        }
+    };
+    finish(&ctx, res)
+}
+
 fn main() {
-    eprintln!("MACHINERY-ERROR: not built yet");
-    std::process::exit(2);
+    let args: Vec<String> = std::env::args().collect();
+    match args.get(1).map(|s| s.as_str()) {
+        Some("check") => {
+            let id = args.get(2).cloned().unwrap_or_default();
+            match args.get(3).map(|s| s.as_str()) {
+                Some("--replay") => replay_file(&id, args.get(4).expect("replay path")),
+                Some("thorough") => run_check(&id, Tier::Thorough),
+                Some("quick") | None => {
+                    let tier = match std::env::var("VERIF_TIER").as_deref() {
+                        Ok("thorough") => Tier::Thorough,
+                        _ => Tier::Quick,
+                    };
+                    run_check(&id, tier)
+                }
+                Some(x) => {
+                    eprintln!("unknown tier {}", x);
+                    std::process::exit(2)
+                }
+            }
+        }
+        Some("bench") => {
+            // bench <family> <set> <idx>
+            if std::env::var("VX_LOUD").is_err() {
+                let _orig = vx::common::mute_stderr();
+                std::mem::forget(_orig);
+                vx::common::silence_panics();
+            }
+            let fam = family(&args[2]);
+            let i: usize = args[4].parse().unwrap();
+            let t0 = std::time::Instant::now();
+            let r = fam.check_idx(&args[3], i, &Mode { complete: false, ..Mode::default() });
+            println!("execs {} decisions {} states {} in {:?}; violations {}", r.executions, r.decisions, r.model_states, t0.elapsed(), r.violations.len());
+            for v in r.violations.iter().take(4) {
+                println!("  {:?} [{}] {} :: {:?}", v.kind, v.culprit, v.what, v.alts);
+            }
+        }
+        Some("describe") => {
+            // describe <family> <set> <idx>...
+            let fam = family(&args[2]);
+            println!("{} programs", fam.len(&args[3]));
+            for a in &args[4..] {
+                let i: usize = a.parse().unwrap();
+                println!("#{} {}", i, fam.describe(&args[3], i));
+            }
+        }
+        Some("survey") => {
+            // survey <family> <set> [from] [to]: run every program in-process, print per-program numbers
+            if std::env::var("VX_LOUD").is_err() {
+                let _orig = vx::common::mute_stderr();
+                std::mem::forget(_orig);
+                vx::common::silence_panics();
+            }
+            let fam = family(&args[2]);
+            let n = fam.len(&args[3]);
+            let from: usize = args.get(4).and_then(|s| s.parse().ok()).unwrap_or(0);
+            let to: usize = args.get(5).and_then(|s| s.parse().ok()).unwrap_or(n).min(n);
+            let mut tot = 0u64;
+            let mut keys: std::collections::BTreeMap<String, (usize, usize)> = Default::default();
+            let stride: usize = args.get(6).and_then(|s| s.parse().ok()).unwrap_or(1);
+            for i in (from..to).step_by(stride) {
+                let r = fam.check_idx(&args[3], i, &Mode { complete: false, ..Mode::default() });
+                tot += r.executions;
+                if let Ok(path) = std::env::var("VX_CSV") {
+                    use std::io::Write;
+                    let mut f = std::fs::OpenOptions::new().create(true).append(true).open(path).unwrap();
+                    let _ = writeln!(f, "{}\t{}\t{}\t{}\t{}", i, r.executions, r.impl_outcomes, r.model_states, fam.describe(&args[3], i));
+                }
+                if r.executions > 20000 {
+                    println!("#{} execs {} :: {}", i, r.executions, fam.describe(&args[3], i));
+                }
+                if let Some(e) = &r.machinery_error {
+                    println!("#{} MACHINERY {}", i, e);
+                }
+                for v in &r.violations {
+                    let k = format!("{:?}/{}", v.kind, v.culprit);
+                    let e = keys.entry(k).or_insert((0, i));
+                    e.0 += 1;
+                }
+            }
+            println!("{} programs, {} executions", to - from, tot);
+            for (k, (c, first)) in keys {
+                println!("  {} x{} first #{}", k, c, first);
+            }
+            let _ = json!(null);
+        }
+        Some("worker") => {
+            // worker <family> <set> <mode-json> <shard> <nshards> <from> <only|-> <deadline>
+            if std::env::var("VX_NO_STACK_CACHE").is_err() {
+                stackcache::enable();
+            }
+            let fam = family(&args[2]);
+            let mode = drive::mode_from_json(&serde_json::from_str(&args[4]).expect("mode json"));
+            let shard: usize = args[5].parse().unwrap();
+            let nshards: usize = args[6].parse().unwrap();
+            let from: usize = args[7].parse().unwrap();
+            let only: Option<usize> = args[8].parse().ok();
+            let deadline: f64 = args[9].parse().unwrap();
+            drive::worker_main(fam.as_ref(), &args[3], &mode, shard, nshards, from, only, deadline);
+        }
+        _ => {
+            eprintln!("usage: vx-c19 check C19 quick|thorough|--replay <file>");
+            std::process::exit(2);
+        }
+    }
 }
